@@ -7,6 +7,7 @@ import (
 	"math"
 	"math/big"
 	"runtime"
+	"runtime/debug"
 	"strings"
 	"sync"
 	"testing"
@@ -431,6 +432,11 @@ func evalC17Labels(c c17Labels, o *Obs) error {
 		wg.Add(1)
 		go func() {
 			defer wg.Done()
+			defer func() {
+				if r := recover(); r != nil {
+					errs[g] = fmt.Errorf("panic while printing in unit %d: %v\n%s", u, r, trimStack(string(debug.Stack())))
+				}
+			}()
 			<-start
 			for i := 0; i < c.Iters && errs[g] == nil; i++ {
 				if got := bchutil.AmountUnit(u).String(); got != want {
